@@ -115,4 +115,19 @@ PROPS["C04"] = {
     "level_note": "Trusted: Lean kernel; that returning before Apply leaves the caller's object untouched is observed, not proved (Go aliasing).",
 }
 
+PROPS["C03"] = {
+    "level": "proof",
+    "streams": ["apply", "path"],
+    "trusted_base": ["opencontainers/runtime-tools generate: NewFromSpec/AddMultipleProcessEnv/addEnv/RemoveDevice/AddDevice/AddLinuxResourcesDevice/RemoveMount/AddMount/ClearMounts/Add*Hook/SetLinuxIntelRdtClosID/AddProcessAdditionalGid modelled method by method (incl. the env cache keyed by whole initial entries)",
+                     "sort.Stable = a stable sort (modelled by stable insertion sort; the judge only needs sortedness + per-key order)",
+                     "lstat of host device nodes given to the model as data (type, major, minor)",
+                     "filepath.Clean for the mount-depth key (path stream)"],
+    "assumptions": ["I2: the value of a variable is that of the last entry naming it; initial env entries are NAME=value",
+                    "I3: initial device paths and mount destinations are unique",
+                    "edit lists contain no nil entries (validated Specs, C05)"],
+    "technique": "Lean 4 proof: clause-wise postcondition of the Apply model (env cache invariant, remove/replace folds = filter ++ last occurrence, stable-sort invariants, hook dispatch, gid dedup) => judge; correspondence on generated OCI specs x edit lists with real mknod host nodes",
+    "level_text": "Kernel-checked theorem: for every well-formed initial OCI spec, nil-free edit list and host, whenever the Apply model succeeds its result satisfies the declarative judge: env = initial entries ++ one entry per edited variable holding its last edit; devices = untouched initial devices ++ the last edit per container path with host-derived type/major/minor and uid/gid defaulting; one allow rule per b/c node with its permissions or rwm; mounts = untouched initial mounts ++ last edit per destination, ordered by depth and, per depth, in the previous order; hooks appended per stage; gids appended without 0 or repeats; RDT replaced; it never panics and fails exactly on a host lookup failure or unknown hook. Tied to the code by running ContainerEdits.Apply on generated specs (nil/empty/populated sections, colliding devices and mounts, non-clean destinations, repeated variable names/paths/destinations, every hook stage, process uid/gid zero or not) with host nodes created by mknod (c, b, fifo, regular file, missing), comparing the canonical OCI image with the model, judging it with the same judge, and checking that everything outside the modelled sections is byte-identical.",
+    "level_note": "Trusted: Lean kernel; the generator model; host stat given as data. Partial application after a failing Apply is not modelled.",
+}
+
 NOT_APPLICABLE = {}
